@@ -29,6 +29,8 @@ THEOREMS = [
     "C20_paths_cwd",
     "C20_missing",
     "C20_missing_error",
+    "C20_flatten",
+    "C20_flatten_spec",
 ]
 BLOCKS = ["cell", "surface", "data"]
 NAMES = ["sub", "part", "cells", "geom", "inc", "x", "deck", "Mats"]
